@@ -54,13 +54,14 @@ class C11(Prop):
         for i in range(n_items + 1):
             acts = []
             for _ in range(s.weighted((2, 3, 2, 1), "nacts")):
-                acts.append(("probe", "record", "pause", "nested-scope", "nested-stream")[s.weighted((4, 2, 3, 1, 1), "act")])
+                acts.append(("probe", "record", "pause", "nested-scope", "nested-stream", "spawn")[s.weighted((8, 4, 6, 2, 2, 1), "act")])
             steps.append(acts)
         gen_raises = profile == "faults" and s.chance(1, 3, "gen-raises")
         cancel_consumer = profile == "faults" and not gen_raises and s.chance(1, 2, "cancel-consumer")
         break_after = s.draw(max(1, n_items), "break-after") if end.startswith("break") else None
         # a second, simple stream created in the same scope and consumed before or after the first one
         pre_cancelled = (not cancel_consumer) and s.chance(1, 6, "pre-cancelled")
+        source_kind = s.weighted((4, 1, 1), "source-kind")  # plain async generator function, functools.partial, callable instance
         second = (mode in ("same-scope", "outside-scope") and end == "exhaust" and not cancel_consumer
                   and s.chance(1, 3, "second-stream"))
         second_first = bool(second and s.draw(2, "second-first"))
@@ -71,7 +72,8 @@ class C11(Prop):
 
         sim.program = {"mode": mode, "end": end, "items": n_items, "item_kinds": item_kinds, "steps": steps, "gen_raises": gen_raises,
                        "cancel_consumer": cancel_consumer, "break_after": break_after, "second_stream": int(second),
-                       "second_consumed_first": int(second_first), "consumer_swallowed_a_cancel_before": int(pre_cancelled)}
+                       "second_consumed_first": int(second_first), "consumer_swallowed_a_cancel_before": int(pre_cancelled),
+                       "source": ("function", "functools.partial", "callable instance")[source_kind]}
         if mode != "same-scope" or end in ("break-drop", "never-started") or gen_raises or cancel_consumer:
             sim.nontrivial = True
 
@@ -81,6 +83,7 @@ class C11(Prop):
         gen_exc = Injected("gen")
         rec_values = []
         nested_values = []
+        spawned = []
         st = {"received": [], "outcome": None, "gen_started": False, "gen_closed": False, "completion": [],
               "a_left_seq": None, "stream_done_seq": None, "logn": 0, "consumer_task": None, "in_fetch": False,
               "gen_cancelled": False}
@@ -156,6 +159,21 @@ class C11(Prop):
                             ctx.record(M1(items=(v,)), merge=lambda l, r: M1(items=(*l.items, *r.items)))
                         elif act == "pause":
                             await sim.pause(f"gen{i}")
+                        elif act == "spawn":
+                            # the generator starts a background task in its stream scope; it blocks until cancelled
+                            async def background():
+                                spawned.append("started")
+                                try:
+                                    forced = await sim.gate("gen-bg", held=True)
+                                    spawned.append("forced" if forced else "released")
+                                except asyncio.CancelledError:
+                                    spawned.append("cancelled")
+                                    raise
+                            try:
+                                ctx.spawn(background)
+                                sim.stats["generator_spawned_task"] += 1
+                            except RuntimeError:
+                                pass
                         elif act == "nested-scope":
                             inner = make_state(0, 50 + i)
                             with ctx.scope("gen-nested", inner):
@@ -256,6 +274,9 @@ class C11(Prop):
                     await stream.aclose()
                     if not st["gen_closed"]:
                         sim.fail("R5-aclose", "aclose() returned but the generator body was not finalised")
+                    if "forced" in spawned and mode == "same-scope":
+                        sim.report("R5-spawned-task-awaited", "aclose() of a stream whose generator had spawned a blocked task waited for "
+                                   "that task (its gate had to be forced) instead of cancelling it", **feat())
             except asyncio.CancelledError:
                 st["outcome"] = ("cancelled", None)
                 compare(before, "after being cancelled during a fetch", "R4-consumer-context-after")
@@ -274,7 +295,16 @@ class C11(Prop):
             holder = {}
 
             async def in_a():
-                holder["stream"] = ctx.stream(gen, "tag")
+                if source_kind == 1:
+                    import functools
+                    holder["stream"] = ctx.stream(functools.partial(gen, "tag"))
+                elif source_kind == 2:
+                    class Source:
+                        def __call__(self, tag):
+                            return gen(tag)
+                    holder["stream"] = ctx.stream(Source(), "tag")
+                else:
+                    holder["stream"] = ctx.stream(gen, "tag")
                 if second:
                     holder["stream2"] = ctx.stream(gen2)
                 if mode == "same-scope":
